@@ -1016,3 +1016,57 @@ func (e *Engine) dirEntries(dir *inode) []Value {
 	}
 	return out
 }
+
+
+// snapshot captures the tree now; the returned function renders it under a solver model
+// (symbolic file bytes are evaluated with the counterexample's input values).
+func (f *fsModel) snapshot() func(model map[string]uint64) []FSEntry {
+	type rec struct {
+		path   string
+		kind   int
+		mode   uint32
+		data   []*smt.Term
+		target string
+	}
+	var recs []rec
+	var walk func(p string, n *inode)
+	walk = func(p string, n *inode) {
+		switch n.kind {
+		case inoDir:
+			recs = append(recs, rec{path: p, kind: inoDir, mode: n.mode})
+			var names []string
+			for nm := range n.entries {
+				names = append(names, nm)
+			}
+			sort.Strings(names)
+			for _, nm := range names {
+				walk(strings.TrimRight(p, "/")+"/"+nm, n.entries[nm])
+			}
+		case inoFile:
+			recs = append(recs, rec{path: p, kind: inoFile, mode: n.mode, data: append([]*smt.Term(nil), n.data...)})
+		case inoLink:
+			recs = append(recs, rec{path: p, kind: inoLink, target: n.target})
+		}
+	}
+	walk("/", f.root)
+	return func(model map[string]uint64) []FSEntry {
+		var out []FSEntry
+		for _, r := range recs {
+			en := FSEntry{Path: r.path, Mode: r.mode, Target: r.target}
+			switch r.kind {
+			case inoDir:
+				en.Kind = "dir"
+			case inoFile:
+				en.Kind = "file"
+				en.Data = make([]byte, len(r.data))
+				for i, t := range r.data {
+					en.Data[i] = byte(smt.Eval(t, model))
+				}
+			default:
+				en.Kind = "link"
+			}
+			out = append(out, en)
+		}
+		return out
+	}
+}
